@@ -304,13 +304,20 @@ def run(rep, tier):
     for name, f in fns:
         rep.saw(f, len(f.events))
         rf = f.calls_named(r"SidecarStore::<T, M>::refresh_meta$")
-        rl = f.var_locals("retried")
+        # the retry latch: a bool local initialised false and set true (whatever it is called)
+        rl = []
+        for l in range(len(f.locals)):
+            if f.locals[l] != "bool":
+                continue
+            consts = {(core.op_const(d[3][2]["o"]) or {}).get("int") for d in f.defs.get(l, []) if d[2] == "assign" and d[3][2]["k"] == "use"
+                      and core.op_const(d[3][2]["o"]) is not None}
+            if {"0", "1"} <= consts:
+                rl.append(l)
         ok = bool(rf) and bool(rl)
         if ok:
             at = valueflow.analyse(f)
             for r in rf:
-                vals = valueflow.values_at_term(f, at, r.call_block, rl[0])
-                ok = ok and vals == {1}
+                ok = ok and any(valueflow.values_at_term(f, at, r.call_block, l) == {1} for l in rl)
             # and the flag is false when first tested
         rep.ob("R08.5", "single-retry|%s" % name, ok, "refresh_meta runs only after the retried flag was set on this path, and a second NotFound returns the error", (rf[0].where() if rf else f.file))
         # the NotFound retry never falls back to a different path helper
